@@ -15,7 +15,7 @@
    Decimal.  PARTIAL: the magnitude / phase columns and the per-table use of
    the formatter are checked by the oracle on real reports. *)
 From Coq Require Import ZArith NArith List Bool Arith Reals.
-From PM Require Import Base.Num Base.RNum Base.Cplx Gen.Extracted Model.Format Model.Topology Model.Report Proofs.FormatP Proofs.FormatR Proofs.FormatT Proofs.ReportS Proofs.PeakP Model.Env Proofs.EnvP.
+From PM Require Import Base.Num Base.RNum Base.Cplx Gen.Extracted Model.Format Model.Topology Model.Report Proofs.FormatP Proofs.FormatR Proofs.FormatT Proofs.ReportS Proofs.PeakP Model.Env Proofs.EnvP Model.Conn Proofs.ConnP.
 Import ListNotations.
 Local Open Scope R_scope.
 
@@ -144,3 +144,34 @@ Theorem C19_env_elif_refuted :
   exists (n i : nat) m, (0 < i)%nat /\ ~ In LHeight (medium_lines_elif (m_ideal m) (m_rad m) (S i <? n)%nat (0 <? i)%nat).
 Proof. exact elif_refuted_proof. Qed.
 Print Assumptions C19_env_elif_refuted.
+
+(* the connection columns of the geometry table (Model/Conn.v, tied to Pulse.c_per and the overrides of
+   Geobj.compute_connections by the correspondence stage `conn`): one row per pulse of the object; a pulse at a grounded
+   wire end prints minus the tag of its own wire for the grounded half, whatever the position of the wire; the rows
+   between the ends carry the own tag, or 0 next to a free end *)
+Theorem C19_connection_rows_per_pulse :
+  forall tags i nseg st, length (obj_cper tags i nseg st) = pulse_count i nseg st.
+Proof. exact obj_cper_length_proof. Qed.
+Print Assumptions C19_connection_rows_per_pulse.
+
+Theorem C19_connection_grounded_first_end :
+  forall tags i nseg s2, hd_error (obj_cper tags i nseg (Grounded, s2)) = Some ((- nth i tags 0)%Z, nth i tags 0%Z).
+Proof. exact grounded_first_row_proof. Qed.
+Print Assumptions C19_connection_grounded_first_end.
+
+Theorem C19_connection_grounded_second_end :
+  forall tags i nseg s1, last (obj_cper tags i nseg (s1, Grounded)) (0%Z, 0%Z) = (nth i tags 0%Z, (- nth i tags 0)%Z).
+Proof. exact grounded_last_row_proof. Qed.
+Print Assumptions C19_connection_grounded_second_end.
+
+Theorem C19_connection_inner_rows :
+  forall tg nseg z1 z2,
+    Forall (fun c => (fst c = tg \/ fst c = 0%Z) /\ (snd c = tg \/ snd c = 0%Z)) (mid_cper tg nseg z1 z2).
+Proof. exact mid_rows_proof. Qed.
+Print Assumptions C19_connection_inner_rows.
+
+(* the position of the wire in place of its tag is refuted as soon as tags are not positions *)
+Theorem C19_connection_position_refuted :
+  exists tags i, hd_error (obj_cper tags i 3 (Grounded, Free)) <> Some ((- Z.of_nat (S i))%Z, nth i tags 0%Z).
+Proof. exact position_refuted_proof. Qed.
+Print Assumptions C19_connection_position_refuted.
